@@ -37,7 +37,8 @@ impl Projector {
             }
             Node::Section(_) => {
                 blocks.push(GraphBlock::Header(
-                    self.header_level as u8 + 1,
+                    // nesting deeper than a u8 can count saturates (the writer stops at six anyway)
+                    self.header_level.min(254) as u8 + 1,
                     iter.inlines(),
                 ));
 
